@@ -445,7 +445,8 @@ Lemma spawn_l_ok : forall ds mk code r news,
   (st (fst p) = DONE -> mk = true) /\
   (in_start (pc (fst p)) = true -> st (fst p) = READY) /\
   (fdep (fst p) = true -> exists i, nth_error news i = Some DFAIL) /\
-  counted (pc (fst p)) = true.
+  counted (pc (fst p)) = true /\
+  (pc (fst p) = PExt ADoneH \/ pc (fst p) = PAwaitReady \/ pc (fst p) = PExt ALockIn).
 Proof.
   intros ds mk code r news L P Len p.
   assert (NS : started (pc r) = false) by (rewrite P; auto).
@@ -503,7 +504,8 @@ Proof.
   { rewrite S_st. destruct S_pc as [(X&_)|[(X&_)|(X&Y)]]; rewrite X; simpl; auto; discriminate. }
   split.
   { rewrite S_fdep. rewrite <- C1. subst r2. destruct mk; simpl; auto. }
-  destruct S_pc as [(X&_)|[(X&_)|(X&_)]]; rewrite X; auto.
+  split; [destruct S_pc as [(X&_)|[(X&_)|(X&_)]]; rewrite X; auto|].
+  destruct S_pc as [(X&_)|[(X&_)|(X&_)]]; auto.
 Qed.
 
 (* the other steps of the coroutine, job-local part *)
